@@ -38,6 +38,9 @@ func c08R1(c *Ctx, m *frameModel) {
 	for _, pr := range m.problems {
 		c.violated("R1", "frame-model", "", pr)
 	}
+	if len(m.problems) > 0 {
+		return // the typestate below presupposes one push and one pop primitive
+	}
 	// push primitive asymmetry: the store happens only on paths that return nil
 	{
 		st := m.storers[m.push][0]
